@@ -28,13 +28,27 @@ Record behavior := mkBeh { pre : guard; body : list stmt }.
 Definition program := list behavior.
 Definition beh (P : program) (b : nat) : behavior := nth b P (mkBeh GFalse []).
 
+(* Options({opt: weight, ...}) (core/distributions.py Options.__init__): entries of weight 0 are
+   dropped (`if prob == 0: continue`), an empty remainder is a RejectionException ("empty domain"),
+   otherwise the selector is DiscreteRange(0, n-1, weights) = random.choices on the cumulative
+   weights of the REMAINING entries.  Result: position of the chosen entry in the original dict. *)
+Definition nonzero (w : Q) : bool := negb (Qeq_bool w 0).
+Definition nzpos (ws : list Q) : list nat :=
+  filter (fun k => nonzero (nth k ws 0)) (seq 0 (length ws)).
+Definition options_tree (ws : list Q) : ptree nat :=
+  match nzpos ws with
+  | [] => Rej
+  | ps => bind (weighted_tree (map (fun k => nth k ws 0) ps)) (fun z => Ret (nth (Z.to_nat z) ps O))
+  end.
+
 (* pickEnabledInvocable: position (in the enabled list) of the chosen item.
-   none enabled: RejectSimulationException; exactly one: no draw; else Options(enabled) *)
+   none enabled: RejectSimulationException; exactly one: no draw (whatever its weight);
+   else Options(enabled) *)
 Definition pick_pos (ws : list Q) : ptree nat :=
   match ws with
   | [] => Rej
   | [_] => Ret O
-  | _ => bind (weighted_tree ws) (fun k => Ret (Z.to_nat k))
+  | _ => options_tree ws
   end.
 
 Definition enabled (P : program) (t : nat) (opts : list (nat * Q)) : list (nat * Q) :=
@@ -82,7 +96,7 @@ Section Exec.
                   if Z.ltb hi lo then Rej
                   else bind (randint_tree lo hi) (fun x => exec f rest (step (base + x)%Z x))
               | SWDrawTake ws base =>
-                  bind (weighted_tree ws) (fun x => exec f rest (step (base + x)%Z x))
+                  bind (options_tree ws) (fun k => let x := Z.of_nat k in exec f rest (step (base + x)%Z x))
               | SRequire p thr =>
                   if Qle_bool 1 p then (if Z.ltb thr (lastx s) then exec f rest s else Rej)
                   else bind (bern_tree p) (fun on =>
@@ -96,23 +110,26 @@ Section Exec.
                   bind (pick_item (time s) (number O opts))
                        (fun it => bind (exec f (body (beh P (fst (snd it)))) s) (fun s' => exec f rest s'))
               | SShuffle opts =>
-                  bind (shuffle f f (number O opts) s) (fun s' => exec f rest s')
+                  bind (shuffle f f (number O opts) s) (fun r => exec f rest (fst r))
               end
         end
     end
-  (* `while subs: choice = pickEnabledInvocable(subs); subs.pop(choice); run choice` *)
-  with shuffle (fuel : nat) (n : nat) (items : list item) (s : state) : ptree state :=
+  (* `while subs: choice = pickEnabledInvocable(subs); subs.pop(choice); run choice`.
+     Returns the final state and (for the theorems only; `exec` discards it) the positions of the
+     items in the order they were run. *)
+  with shuffle (fuel : nat) (n : nat) (items : list item) (s : state) : ptree (state * list nat) :=
     match fuel with
     | O => Rej
     | S f =>
         match items with
-        | [] => Ret s
+        | [] => Ret (s, [])
         | _ =>
-            if Nat.leb maxSteps (time s) then Ret s
+            if Nat.leb maxSteps (time s) then Ret (s, [])
             else
               bind (pick_item (time s) items)
                 (fun it => bind (exec f (body (beh P (fst (snd it)))) s)
-                             (fun s' => shuffle f n (drop_pos (fst it) items) s'))
+                             (fun s' => bind (shuffle f n (drop_pos (fst it) items) s')
+                                          (fun r => Ret (fst r, fst it :: snd r))))
         end
     end.
 End Exec.
